@@ -44,6 +44,8 @@ func failErr(kind string) error {
 		return io.EOF
 	case "reset":
 		return peer.ErrReset
+	case "eof-with-data":
+		return io.EOF
 	}
 	return peer.ErrTimeout
 }
@@ -177,6 +179,10 @@ func runCaseOnce(c c14Case) (f *vh.Failure) {
 		vh.Label("request-write-failed-before-response")
 	}
 	start := time.Now()
+	if c.Kind == "eof-with-data" && c.K > 0 {
+		// the read that hands out byte K reports io.EOF along with the data (io.Reader allows it)
+		pipe.EOFWithLastBytes(c.K)
+	}
 	pipe.FailAfter(c.K, failErr(c.Kind))
 	pipe.Feed(tcp)
 	bound := time.Duration(c.Timeout)*time.Second + 2*time.Second
@@ -332,7 +338,7 @@ func TestEveryOffset(t *testing.T) {
 		stream, _, _, _ := rc.EncodeStream(ps)
 		total := len(stream) + 8*(len(cuts)+1)
 		for k := 0; k <= total; k++ {
-			for _, kind := range []string{"eof", "reset", "timeout"} {
+			for _, kind := range []string{"eof", "reset", "timeout", "eof-with-data"} {
 				n++
 				cs := c14Case{Pkgs: ps, Cuts: cuts, K: k, Kind: kind, Timeout: 0, Poll: n%3 == 0}
 				if n%5 == 0 {
@@ -355,7 +361,7 @@ func TestRandomFaults(t *testing.T) {
 		ps, cuts := genResp(rt)
 		stream, _, _, _ := rc.EncodeStream(ps)
 		total := len(stream) + 8*(len(cuts)+1)
-		c := c14Case{Pkgs: ps, Cuts: cuts, K: rapid.IntRange(0, total).Draw(rt, "k"), Kind: rapid.SampledFrom([]string{"eof", "reset", "timeout"}).Draw(rt, "kind"), Timeout: 0, Poll: rapid.Bool().Draw(rt, "poll")}
+		c := c14Case{Pkgs: ps, Cuts: cuts, K: rapid.IntRange(0, total).Draw(rt, "k"), Kind: rapid.SampledFrom([]string{"eof", "reset", "timeout", "eof-with-data"}).Draw(rt, "kind"), Timeout: 0, Poll: rapid.Bool().Draw(rt, "poll")}
 		if rapid.IntRange(0, 3).Draw(rt, "writefault") == 0 {
 			c.WriteFault = rapid.IntRange(1, 3).Draw(rt, "failat")
 		}
